@@ -35,6 +35,122 @@ theorem containsSub_nil_right {m : Str} (h : containsSub m [] = true) : m = [] :
   | nil => rfl
   | cons a as => simp at h
 
+/-! ### strings.Index and the choice of the reverse lookup -/
+
+theorem indexSub_prefix : ∀ {v k : Str} {i : Nat}, indexSub k v = some i → k.isPrefixOf (v.drop i) = true
+  | [], k, i, h => by
+    unfold indexSub at h
+    cases k with
+    | nil => simp
+    | cons a as => simp at h
+  | c :: cs, k, i, h => by
+    unfold indexSub at h
+    by_cases hp : k.isPrefixOf (c :: cs) = true
+    · simp only [hp, if_true, Option.some.injEq] at h
+      subst h
+      simpa using hp
+    · simp only [hp, Bool.false_eq_true, if_false, Option.map_eq_some_iff] at h
+      obtain ⟨j, hj, rfl⟩ := h
+      simpa using indexSub_prefix hj
+
+theorem indexSub_of_isPrefixOf {k v : Str} (h : k.isPrefixOf v = true) : indexSub k v = some 0 := by
+  cases v with
+  | nil =>
+    cases k with
+    | nil => rfl
+    | cons a as => simp at h
+  | cons c cs => unfold indexSub; simp [h]
+
+theorem eq_of_isPrefixOf_of_length {a b s : Str} (ha : a.isPrefixOf s = true) (hb : b.isPrefixOf s = true)
+    (hl : a.length = b.length) : a = b := by
+  rw [List.isPrefixOf_iff_prefix] at ha hb
+  exact (List.prefix_of_prefix_length_le ha hb (by omega)).eq_of_length hl
+
+/-- `k'` does not beat a key of length `n` whose first occurrence in `v` is at `i` -/
+def NotBeaten (v : Str) (i n : Nat) (k' : Str) : Prop :=
+  ∀ j, indexSub k' v = some j → i < j ∨ (i = j ∧ k'.length ≤ n)
+
+theorem firstLongest_iff {keys : List Str} {v k : Str} :
+    firstLongest keys v k = true ↔ ∃ i, indexSub k v = some i ∧ ∀ k' ∈ keys, NotBeaten v i k.length k' := by
+  unfold firstLongest NotBeaten
+  cases hi : indexSub k v with
+  | none => simp
+  | some i =>
+    simp only [List.all_eq_true, Option.some.injEq, exists_eq_left']
+    constructor
+    · intro h k' hk' j hj
+      have := h k' hk'
+      rw [hj] at this
+      simpa using this
+    · intro h k' hk'
+      cases hj : indexSub k' v with
+      | none => rfl
+      | some j => simpa using h k' hk' j hj
+
+theorem containsSub_of_firstLongest {keys : List Str} {v k : Str} (h : firstLongest keys v k = true) :
+    containsSub k v = true := by
+  obtain ⟨i, hi, _⟩ := firstLongest_iff.mp h
+  simp [containsSub, hi]
+
+/-- two keys that both qualify are the same string: the choice does not depend on the order of `keys` -/
+theorem firstLongest_unique {keys : List Str} {v k k' : Str} (hk : k ∈ keys) (hk' : k' ∈ keys)
+    (h : firstLongest keys v k = true) (h' : firstLongest keys v k' = true) : k = k' := by
+  obtain ⟨i, hi, hb⟩ := firstLongest_iff.mp h
+  obtain ⟨j, hj, hb'⟩ := firstLongest_iff.mp h'
+  have h1 := hb k' hk' j hj
+  have h2 := hb' k hk i hi
+  have hij : i = j := by omega
+  subst hij
+  exact eq_of_isPrefixOf_of_length (indexSub_prefix hi) (indexSub_prefix hj) (by omega)
+
+/-- as soon as a key occurs in the value, one qualifies -/
+theorem firstLongest_exists {keys : List Str} {v : Str} (h : ∃ k ∈ keys, containsSub k v = true) :
+    ∃ k ∈ keys, firstLongest keys v k = true := by
+  suffices hs : ∀ l : List Str, (∃ k ∈ l, containsSub k v = true) →
+      ∃ k ∈ l, ∃ i, indexSub k v = some i ∧ ∀ k' ∈ l, NotBeaten v i k.length k' by
+    obtain ⟨k, hk, i, hi, hb⟩ := hs keys h
+    exact ⟨k, hk, firstLongest_iff.mpr ⟨i, hi, hb⟩⟩
+  intro l
+  induction l with
+  | nil => rintro ⟨k, hk, _⟩; cases hk
+  | cons x xs ih =>
+    intro _
+    by_cases hxs : ∃ k ∈ xs, containsSub k v = true
+    · obtain ⟨b, hbm, i, hi, hb⟩ := ih hxs
+      cases hx : indexSub x v with
+      | none =>
+        refine ⟨b, List.mem_cons_of_mem _ hbm, i, hi, ?_⟩
+        intro k' hk' j hj
+        rcases List.mem_cons.mp hk' with rfl | hk'
+        · rw [hx] at hj; cases hj
+        · exact hb k' hk' j hj
+      | some jx =>
+        by_cases hwin : jx < i ∨ (jx = i ∧ b.length ≤ x.length)
+        · refine ⟨x, List.mem_cons_self, jx, hx, ?_⟩
+          intro k' hk' j hj
+          rcases List.mem_cons.mp hk' with rfl | hk'
+          · rw [hx] at hj; cases hj; omega
+          · have := hb k' hk' j hj
+            omega
+        · refine ⟨b, List.mem_cons_of_mem _ hbm, i, hi, ?_⟩
+          intro k' hk' j hj
+          rcases List.mem_cons.mp hk' with rfl | hk'
+          · rw [hx] at hj; cases hj; omega
+          · exact hb k' hk' j hj
+    · have hx : containsSub x v = true := by
+        rename_i h0
+        obtain ⟨k, hk, hc⟩ := h0
+        rcases List.mem_cons.mp hk with rfl | hk
+        · exact hc
+        · exact absurd ⟨k, hk, hc⟩ hxs
+      unfold containsSub at hx
+      obtain ⟨i, hi⟩ := Option.isSome_iff_exists.mp hx
+      refine ⟨x, List.mem_cons_self, i, hi, ?_⟩
+      intro k' hk' j hj
+      rcases List.mem_cons.mp hk' with rfl | hk'
+      · rw [hi] at hj; cases hj; omega
+      · exact absurd ⟨k', hk', by simp [containsSub, hj]⟩ hxs
+
 /-! ### dedup -/
 
 theorem mem_dedup {k : Kind} : ∀ {l : List Kind}, k ∈ dedup l ↔ k ∈ l
@@ -95,36 +211,77 @@ theorem wf_key {cfg : Cfg} (h : cfg.wf = true) {e : Str × Kind} (he : e ∈ cfg
 
 /-! ### accessorAt -/
 
-/-- C16_select, the lemma form -/
-theorem accessorAt_unique (reg : List (Str × Kind)) (m ct : Str) (k : Kind)
-    (hnd : (reg.map (·.1)).Nodup) (hm : (m, k) ∈ reg) (hsub : containsSub m ct = true)
-    (hu : ∀ e ∈ reg, containsSub e.1 ct = true → e.1 = m) :
-    accessorAt reg ct = [k] := by
+theorem mem_keys {reg : List (Str × Kind)} {e : Str × Kind} (he : e ∈ reg) : e.1 ∈ reg.map (·.1) :=
+  List.mem_map.mpr ⟨e, he, rfl⟩
+
+/-- the readers of the keys that qualify: the reader of the one key that does -/
+theorem dedup_winners {reg : List (Str × Kind)} (hnd : (reg.map (·.1)).Nodup) {ct m : Str} {k : Kind}
+    (hm : (m, k) ∈ reg) (hw : firstLongest (reg.map (·.1)) ct m = true) :
+    dedup ((reg.filter (fun e => firstLongest (reg.map (·.1)) ct e.1)).map (·.2)) = [k] := by
+  apply dedup_all_eq
+  · intro x hx
+    simp only [List.mem_map, List.mem_filter] at hx
+    obtain ⟨e, ⟨hmem, hc⟩, rfl⟩ := hx
+    have : e.1 = m := firstLongest_unique (mem_keys hmem) (mem_keys hm) hc hw
+    have he : e = (m, e.2) := by rw [← this]
+    rw [he] at hmem
+    exact key_unique hnd hmem hm
+  · intro hnil
+    have : k ∈ (reg.filter (fun e => firstLongest (reg.map (·.1)) ct e.1)).map (·.2) := by
+      simp only [List.mem_map, List.mem_filter]
+      exact ⟨(m, k), ⟨hm, hw⟩, rfl⟩
+    rw [hnil] at this
+    cases this
+
+/-- the lookup answers with the reader of the key that `Str.firstLongest` singles out -/
+theorem accessorAt_of_firstLongest {reg : List (Str × Kind)} (hnd : (reg.map (·.1)).Nodup) {ct m : Str} {k : Kind}
+    (hm : (m, k) ∈ reg) (hw : firstLongest (reg.map (·.1)) ct m = true) : accessorAt reg ct = [k] := by
   unfold accessorAt
   cases hf : reg.find? (fun e => e.1 == ct) with
   | some e =>
     have hmem : e ∈ reg := List.mem_of_find?_eq_some hf
     have hkey : e.1 = ct := by simpa using List.find?_some hf
-    have : e.1 = m := hu e hmem (by rw [hkey]; exact containsSub_self ct)
-    have he : e = (m, e.2) := by rw [← this]
+    -- the value itself is a key: it occurs at 0 and nothing that occurs in it is longer
+    obtain ⟨i, hi, hb⟩ := firstLongest_iff.mp hw
+    have h0 : indexSub e.1 ct = some 0 := indexSub_of_isPrefixOf (by rw [hkey]; simp)
+    have := hb e.1 (mem_keys hmem) 0 h0
+    have hi0 : i = 0 := by omega
+    subst hi0
+    have hpre : m <+: ct := List.isPrefixOf_iff_prefix.mp (by simpa using indexSub_prefix hi)
+    have hmc : m = ct := hpre.eq_of_length (by have := hpre.length_le; rw [hkey] at *; omega)
+    have he : e = (m, e.2) := by rw [hmc, ← hkey]
     rw [he] at hmem
     simp [key_unique hnd hmem hm]
-  | none =>
-    simp only
-    apply dedup_all_eq
-    · intro x hx
-      simp only [List.mem_map, List.mem_filter] at hx
-      obtain ⟨e, ⟨hmem, hc⟩, rfl⟩ := hx
-      have : e.1 = m := hu e hmem hc
-      have he : e = (m, e.2) := by rw [← this]
-      rw [he] at hmem
-      exact key_unique hnd hmem hm
-    · intro hnil
-      have : k ∈ (reg.filter (fun e => containsSub e.1 ct)).map (·.2) := by
-        simp only [List.mem_map, List.mem_filter]
-        exact ⟨(m, k), ⟨hm, hsub⟩, rfl⟩
-      rw [hnil] at this
-      cases this
+  | none => exact dedup_winners hnd hm hw
+
+/-- the answer is a function of the value: on a registry with distinct keys the list never has two
+    elements, in whatever order the entries stand -/
+theorem accessorAt_length_le_one {reg : List (Str × Kind)} (hnd : (reg.map (·.1)).Nodup) (ct : Str) :
+    (accessorAt reg ct).length ≤ 1 := by
+  by_cases h : ∃ e ∈ reg, firstLongest (reg.map (·.1)) ct e.1 = true
+  · obtain ⟨e, he, hw⟩ := h
+    rw [accessorAt_of_firstLongest hnd (m := e.1) (k := e.2) he hw]
+    simp
+  · unfold accessorAt
+    cases hf : reg.find? (fun e => e.1 == ct) with
+    | some e => simp
+    | none =>
+      have : reg.filter (fun e => firstLongest (reg.map (·.1)) ct e.1) = [] := by
+        rw [List.filter_eq_nil_iff]
+        intro e he hw
+        exact h ⟨e, he, hw⟩
+      simp [this, dedup]
+
+/-- C16_select, the lemma form -/
+theorem accessorAt_unique (reg : List (Str × Kind)) (m ct : Str) (k : Kind)
+    (hnd : (reg.map (·.1)).Nodup) (hm : (m, k) ∈ reg) (hsub : containsSub m ct = true)
+    (hu : ∀ e ∈ reg, containsSub e.1 ct = true → e.1 = m) :
+    accessorAt reg ct = [k] := by
+  obtain ⟨w, hw, hwin⟩ := firstLongest_exists (keys := reg.map (·.1)) (v := ct) ⟨m, mem_keys hm, hsub⟩
+  obtain ⟨e, he, rfl⟩ := List.mem_map.mp hw
+  have : e.1 = m := hu e he (containsSub_of_firstLongest hwin)
+  rw [this] at hwin
+  exact accessorAt_of_firstLongest hnd hm hwin
 
 /-- no key of a well-formed registry is found for an absent Content-Type -/
 theorem accessorAt_nil {cfg : Cfg} (h : cfg.wf = true) : accessorAt cfg.registry [] = [] := by
@@ -139,82 +296,106 @@ theorem accessorAt_nil {cfg : Cfg} (h : cfg.wf = true) : accessorAt cfg.registry
     apply dedup_eq_nil
     simp only [List.map_eq_nil_iff, List.filter_eq_nil_iff]
     intro e hmem hc
-    exact (wf_key h hmem).1 (containsSub_nil_right hc)
+    exact (wf_key h hmem).1 (containsSub_nil_right (containsSub_of_firstLongest hc))
 
 open Spec.C16 in
-/-- what the Content-Type's media type selects is among the readers the lookup can produce -/
-theorem mem_accessorAt_of_mediaSelects {cfg : Cfg} (h : cfg.wf = true) {x : Str} {k : Kind}
-    (hs : mediaSelects cfg.registry x k = true) : k ∈ accessorAt cfg.registry x := by
-  unfold mediaSelects at hs
-  simp only [List.any_eq_true, Bool.and_eq_true, beq_iff_eq] at hs
-  obtain ⟨e, hmem, hk, hst⟩ := hs
+/-- a registered key that is the media type of the value — the value starts with it, and what
+    follows starts with `;` or a blank — is THE key the lookup answers with: it occurs at position
+    0, and a key that also starts there cannot be longer, it would contain the `;` or the blank -/
+theorem firstLongest_of_startsMedia {cfg : Cfg} (h : cfg.wf = true) {x : Str} {e : Str × Kind}
+    (hst : startsMedia e.1 x = true) :
+    firstLongest (cfg.registry.map (·.1)) x e.1 = true := by
   unfold startsMedia at hst
   simp only [Bool.and_eq_true] at hst
   obtain ⟨hpre, hrest⟩ := hst
-  unfold accessorAt
-  cases hf : cfg.registry.find? (fun e => e.1 == x) with
-  | some e' =>
-    have hmem' : e' ∈ cfg.registry := List.mem_of_find?_eq_some hf
-    have hkey : e'.1 = x := by simpa using List.find?_some hf
+  refine firstLongest_iff.mpr ⟨0, indexSub_of_isPrefixOf hpre, ?_⟩
+  intro k' hk' j hj
+  by_cases hj0 : j = 0
+  · right
+    refine ⟨hj0.symm, ?_⟩
+    subst hj0
+    obtain ⟨e', hmem', rfl⟩ := List.mem_map.mp hk'
+    have hpre' : e'.1 <+: x := List.isPrefixOf_iff_prefix.mp (by simpa using indexSub_prefix hj)
     obtain ⟨t, ht⟩ := List.isPrefixOf_iff_prefix.mp hpre
+    apply Classical.byContradiction
+    intro hlt
+    have hlen : e.1.length ≤ e'.1.length := by omega
+    obtain ⟨u, hu⟩ := List.prefix_of_prefix_length_le ⟨t, ht⟩ hpre' hlen
     have hdrop : x.drop e.1.length = t := by rw [← ht]; simp
     rw [hdrop] at hrest
+    have hut : u <+: t := by
+      rw [← hu, ← ht] at hpre'
+      exact (List.prefix_append_right_inj _).mp hpre'
     cases t with
     | nil =>
-      have hex : e.1 = e'.1 := by rw [hkey, ← ht]; simp
-      have h1 : (e.1, e.2) ∈ cfg.registry := hmem
-      have h2 : (e.1, e'.2) ∈ cfg.registry := by rw [hex]; exact hmem'
-      have := key_unique (wf_nodup h) h1 h2
-      simp [← this, hk]
+      have : u = [] := List.prefix_nil.mp hut
+      rw [this] at hu
+      simp only [List.append_nil] at hu
+      rw [← hu] at hlt
+      omega
     | cons c cs =>
-      simp only [Bool.or_eq_true, beq_iff_eq] at hrest
-      have hc : c ∈ e'.1 := by rw [hkey, ← ht]; simp
-      have := (wf_key h hmem').2 c hc
-      rcases hrest with hr | hr
-      · exact absurd hr this.1
-      · exact absurd hr this.2
-  | none =>
-    simp only
-    rw [mem_dedup]
-    simp only [List.mem_map, List.mem_filter]
-    exact ⟨e, ⟨hmem, containsSub_of_isPrefixOf hpre⟩, hk⟩
+      cases u with
+      | nil =>
+        simp only [List.append_nil] at hu
+        rw [← hu] at hlt
+        omega
+      | cons c' us =>
+        have hcc : c' = c := by
+          obtain ⟨r, hr⟩ := hut
+          simp only [List.cons_append, List.cons.injEq] at hr
+          exact hr.1
+        have hc : c ∈ e'.1 := by rw [← hu, hcc]; simp
+        have := (wf_key h hmem').2 c hc
+        simp only [Bool.or_eq_true, beq_iff_eq] at hrest
+        rcases hrest with hr | hr
+        · exact this.1 hr
+        · exact this.2 hr
+  · left; omega
+
+open Spec.C16 in
+/-- what the Content-Type's media type selects is THE reader the lookup produces -/
+theorem accessorAt_of_mediaSelects {cfg : Cfg} (h : cfg.wf = true) {x : Str} {k : Kind}
+    (hs : mediaSelects cfg.registry x k = true) : accessorAt cfg.registry x = [k] := by
+  unfold mediaSelects at hs
+  simp only [List.any_eq_true, Bool.and_eq_true, beq_iff_eq] at hs
+  obtain ⟨e, hmem, hk, hst⟩ := hs
+  have he : (e.1, k) ∈ cfg.registry := by rw [← hk]; exact hmem
+  exact accessorAt_of_firstLongest (wf_nodup h) he (firstLongest_of_startsMedia h hst)
 
 theorem mediaSelects_ne_nil {cfg : Cfg} (h : cfg.wf = true) {x : Str} {k : Kind}
     (hs : Spec.C16.mediaSelects cfg.registry x k = true) : x ≠ [] := by
   intro hx
-  have := mem_accessorAt_of_mediaSelects h hs
+  have := accessorAt_of_mediaSelects h hs
   rw [hx, accessorAt_nil h] at this
   cases this
 
 open Spec.C16 in
-/-- outside class F62, the reader the Content-Type selects is THE reader the lookup produces -/
+/-- the reader the Content-Type selects is THE reader the lookup produces (until 8b400b4: outside
+    class F62 only) -/
 theorem accessorsFor_of_selected {cfg : Cfg} (h : cfg.wf = true) {ct : Str} {k : Kind}
-    (hs : selected cfg ct k = true) (hamb : f62 cfg ct = false) : accessorsFor cfg ct = [k] := by
-  have hmem : k ∈ accessorsFor cfg ct := by
-    unfold selected at hs
-    simp only [Bool.or_eq_true, Bool.and_eq_true, List.isEmpty_iff] at hs
-    unfold accessorsFor
-    rcases hs with hs | ⟨hct, hs⟩
-    · have := mem_accessorAt_of_mediaSelects h hs
-      cases ha : accessorAt cfg.registry ct with
-      | nil => rw [ha] at this; cases this
-      | cons a as => simpa [ha] using this
-    · subst hct
-      rw [accessorAt_nil h]
-      have hd : cfg.dflt ≠ [] := mediaSelects_ne_nil h hs
-      simp only [List.isEmpty_iff, hd, if_false]
-      exact mem_accessorAt_of_mediaSelects h hs
-  unfold f62 at hamb
-  simp only [decide_eq_false_iff_not, Nat.not_lt] at hamb
-  cases hl : accessorsFor cfg ct with
-  | nil => rw [hl] at hmem; cases hmem
-  | cons a as =>
-    rw [hl] at hmem hamb
-    cases as with
-    | nil =>
-      simp only [List.mem_singleton] at hmem
-      rw [hmem]
-    | cons b bs => simp at hamb
+    (hs : selected cfg ct k = true) : accessorsFor cfg ct = [k] := by
+  unfold selected at hs
+  simp only [Bool.or_eq_true, Bool.and_eq_true, List.isEmpty_iff] at hs
+  unfold accessorsFor
+  rcases hs with hs | ⟨hct, hs⟩
+  · rw [accessorAt_of_mediaSelects h hs]
+  · subst hct
+    rw [accessorAt_nil h]
+    have hd : cfg.dflt ≠ [] := mediaSelects_ne_nil h hs
+    simp only [List.isEmpty_iff, hd, if_false]
+    exact accessorAt_of_mediaSelects h hs
+
+theorem accessorsFor_length_le_one {cfg : Cfg} (hnd : (cfg.registry.map (·.1)).Nodup) (ct : Str) :
+    (accessorsFor cfg ct).length ≤ 1 := by
+  unfold accessorsFor
+  have h1 := accessorAt_length_le_one hnd ct
+  cases ha : accessorAt cfg.registry ct with
+  | nil =>
+    simp only
+    split
+    · simp
+    · exact accessorAt_length_le_one hnd _
+  | cons a as => rw [ha] at h1; simpa using h1
 
 /-! ### the result of `ReadEntity` as a function of the request alone -/
 
@@ -263,6 +444,33 @@ theorem readEntity_events {Value : Type} (C : Codec Value) (cfg : Cfg) (pool : P
     · simp only [hd, if_true]
       cases C.unzl req.body <;> simp
     · simp [hd]
+
+theorem lookupAndRead_length {Value : Type} (C : Codec Value) {cfg : Cfg} (hnd : (cfg.registry.map (·.1)).Nodup)
+    (ct : Str) (s : Stream) : (lookupAndRead C cfg ct s).length = 1 := by
+  unfold lookupAndRead
+  have := accessorsFor_length_le_one hnd ct
+  cases ha : accessorsFor cfg ct with
+  | nil => rfl
+  | cons a as =>
+    rw [ha] at this
+    simp only [List.length_cons] at this
+    have : as = [] := List.length_eq_zero_iff.mp (by omega)
+    simp [this]
+
+/-- `ReadEntity` has ONE result on every registry that is a map (distinct keys): any codec, pool,
+    request — the Content-Type may name as many registered keys as it likes -/
+theorem readEntity_results_length {Value : Type} (C : Codec Value) {cfg : Cfg} (hnd : (cfg.registry.map (·.1)).Nodup)
+    (pool : Pool) (req : RequestIn) : (readEntity C cfg pool req).results.length = 1 := by
+  unfold readEntity
+  by_cases hg : req.contentEncoding = ENCODING_GZIP
+  · simp [hg, lookupAndRead_length C hnd]
+  · simp only [hg, if_false]
+    by_cases hd : req.contentEncoding = ENCODING_DEFLATE
+    · simp only [hd, if_true]
+      cases C.unzl req.body with
+      | none => rfl
+      | some s => simp [lookupAndRead_length C hnd]
+    · simp [hd, lookupAndRead_length C hnd]
 
 theorem lookupAndRead_ne_nil {Value : Type} (C : Codec Value) (cfg : Cfg) (ct : Str) (s : Stream) :
     lookupAndRead C cfg ct s ≠ [] := by
